@@ -16,7 +16,7 @@ def Val.nanFree (st : Store) : Val → Prop
   | .seq _ _ items => ∀ s ∈ items, s.isNaN = false
   | .tuple ids => ∀ s ∈ (ids.mapM st.scalar).getD [], s.isNaN = false
   | .table _ _ t => ∀ e ∈ t.entries, e.1.isNaN = false ∧ e.2.isNaN = false
-  | .tree _ _ es => ∀ e ∈ es, e.1.isNaN = false ∧ e.2.isNaN = false
+  | .tree _ _ t => ∀ e ∈ t.toList, e.1.isNaN = false ∧ e.2.isNaN = false
 
 theorem seqItems_nanFree {st : Store} {v : Val} {xs : List Scalar} (hv : v.nanFree st) (hx : seqItems st v = some xs) :
     ∀ s ∈ xs, s.isNaN = false := by
